@@ -63,6 +63,12 @@ def plan (tier, seed):
                 for pos in (0, 1, 2):
                     for dend in (0, 1):
                         cases.append (dict (fam = 'decoy', kind = kind, k = k, mask = mask, pos = pos, dend = dend))
+    # two ends exactly the matching distance apart
+    for sl in (1.0, 2.0, 0.25, 4.0):
+        for fac in (1.0, 0.5, 1.5, 1.0000001, 0.9999999):
+            for order in (0, 1):
+                for rev in (0, 1, 2, 3):
+                    cases.append (dict (fam = 'exact', sl = sl, fac = fac, order = order, rev = rev))
     n = 400 if tier == 'quick' else 6000
     cases += [dict (fam = 'graph', i = i, seed = seed) for i in range (n)]
     return cases
@@ -90,6 +96,8 @@ def make (c):
         return make_dloop (c)
     if c ['fam'] == 'decoy':
         return make_decoy (c)
+    if c ['fam'] == 'exact':
+        return make_exact (c)
     if c ['fam'] == 'moved':
         return make_moved (c)
     k, mask, perm, gnd, var = c ['k'], c ['mask'], c ['perm'], c ['gnd'], c ['var']
@@ -206,6 +214,29 @@ def make_decoy (c):
         spec ['tr'] = [['translate', 1.0, [448000.0, 5411000.0, 0.0], None]]
     return spec
 # end def make_decoy
+
+def make_exact (c):
+    """ two wire ends whose distance is the matching distance itself (1/1000 of the shortest segment, in numbers that
+        floating point holds exactly), half of it, or a little more; a further wire, defined first, stands elsewhere """
+    sl, fac, order, rev = c ['sl'], c ['fac'], c ['order'], c ['rev']
+    g   = 1e-3 * sl * fac
+    w0  = (gen.wire (3, [5 * sl, 5 * sl, 5 * sl], [5 * sl, 5 * sl, 8 * sl], 0.01 * sl), {0: 'a0', 1: 'a1'})
+    joined = fac <= 1.0
+    n1, n2 = 4, 3
+    a = (gen.wire (n1, [-n1 * sl, 0.0, 0.0], [0.0, 0.0, 0.0], 0.01 * sl), {0: 'b0', 1: 'J'})
+    if rev & 1:
+        a = (gen.wire (n1, [0.0, 0.0, 0.0], [-n1 * sl, 0.0, 0.0], 0.01 * sl), {1: 'b0', 0: 'J'})
+    b = (gen.wire (n2, [g, 0.0, 0.0], [g, n2 * sl, 0.0], 0.01 * sl), {0: 'J' if joined else 'K', 1: 'c1'})
+    if rev & 2:
+        b = (gen.wire (n2, [g, n2 * sl, 0.0], [g, 0.0, 0.0], 0.01 * sl), {1: 'J' if joined else 'K', 0: 'c1'})
+    wires = [w0, a, b] if order == 0 else [w0, b, a]
+    geo, ends = [], []
+    for wi, (gg, nodes) in enumerate (wires):
+        geo.append (gg)
+        for e in (0, 1):
+            ends.append (dict (w = wi, e = e, node = nodes [e], gnd = False))
+    return dict (f = 299.8 / (40 * sl), geo = geo, media = None, src = [], loads = [], ends = ends, tol = 1e-3 * sl, style = 'auto')
+# end def make_exact
 
 def make_moved (c):
     """ star of k ends; one more wire is written elsewhere and brought onto the junction by a request for its tag
@@ -388,7 +419,8 @@ def check (c):
         # seven digits per printed component, six decimals (1e-6 absolute) for components of 0.1 .. 1
         if abs (val - exp) > 6e-6 * max (abs (exp), abs (val)) + 1.5e-6 * (max (abs (val.real), abs (val.imag)) >= 0.1) + 1e-30:
             parts = single [(t, e)]
-            if e == 0 and len (parts) >= 2 and any (abs (val - x) <= 6e-6 * max (abs (x), Imax) + 1.5e-6 for x in parts):
+            # (the finding is about the wire the later wires of a junction are joined to: the one defined first)
+            if e == 0 and len (parts) >= 2 and t == min (x [0] for x in mem) and any (abs (val - x) <= 6e-6 * max (abs (x), Imax) + 1.5e-6 for x in parts):
                 viol.append (dict ( monitor = 'end-lines', key = 'end1-junction-line-single-pulse'
                                   , msg = 'object %d end 1: J line %r is one of the %d pulse currents through that end, their total is %r'
                                         % (t, val, len (parts), exp)))
@@ -418,6 +450,8 @@ def check (c):
         sig = 'moved|%s|%s|k%d|m%d' % (c ['mode'], c ['kind'], c ['k'], c ['mask'])
     elif c.get ('fam') == 'decoy':
         sig = 'decoy|%s|k%d|m%d|p%d%d' % (c ['kind'], c ['k'], c ['mask'], c ['pos'], c ['dend'])
+    elif c.get ('fam') == 'exact':
+        sig = 'exact|%g|%r|%d%d' % (c ['sl'], c ['fac'], c ['order'], c ['rev'])
     elif c.get ('fam') == 'dloop':
         sig = 'dloop|%s|n%d' % (c ['kind'], c ['n'])
     elif c.get ('fam') == 'ring':
@@ -428,7 +462,7 @@ def check (c):
     else:
         kinds = ''.join (sorted (set (g ['k'] for g in spec ['geo'])))
         sig = 'graph|%s|%s|%s' % ('gnd' if spec ['media'] else 'free', sizes, kinds)
-    nontrivial = bool (sizes and (max (sizes) >= 3 or len (sizes) >= 2)) or c.get ('fam') in ('ring', 'dloop', 'decoy', 'moved')
+    nontrivial = bool (sizes and (max (sizes) >= 3 or len (sizes) >= 2)) or c.get ('fam') in ('ring', 'dloop', 'decoy', 'moved', 'exact')
     return dict ( status = 'violation' if viol else 'held', sig = sig, nontrivial = nontrivial
                 , monitors = mon, violations = viol [:6], info = dict (N = N, sizes = sizes))
 # end def check
